@@ -8,6 +8,9 @@ import (
 	"strings"
 	"unicode/utf8"
 
+	"github.com/jotaen/klog/klog/app/cli"
+	cliutil "github.com/jotaen/klog/klog/app/cli/util"
+
 	"klogverif/clidrv"
 	"klogverif/docgen"
 	"klogverif/fw"
@@ -58,9 +61,11 @@ var c18Commands = [][]string{
 }
 
 type c18Case struct {
-	Doc int      `json:"doc"`
-	Cmd []string `json:"command"`
-	Cfg string   `json:"config"`
+	Doc  int      `json:"doc"`
+	Cmd  []string `json:"command"`
+	Cfg  string   `json:"config"`
+	Fam  string   `json:"fam,omitempty"`
+	Text fw.Txt   `json:"text,omitempty"`
 }
 
 type c18Config struct {
@@ -88,22 +93,36 @@ func init() {
 		Title: "Colour and styling never change what is printed",
 		Rule: fmt.Sprint(len(c18Docs())) + " documents (all structural shapes plus Unicode summaries and tags with wide, combining and astral characters, quoted tag values, negative / >99h / zero totals, 12-hour times, empty records) x " + fmt.Sprint(len(c18Commands)) + " command lines " +
 			"(print, print --with-totals, total, report x 5 aggregations x fill/diff/chart/decimal/now, tags -v -c, today --diff --now) x 8 styling configurations " +
-			"({--no-style, NO_COLOR, colour_scheme=no_colour} unstyled; {default, dark, light, basic} styled; light+--no-style), all through the complete CLI. A case = (document, command, configuration); all distinct.",
+			"({--no-style, NO_COLOR, colour_scheme=no_colour} unstyled; {default, dark, light, basic} styled; light+--no-style), all through the complete CLI; " +
+			"plus BULK (command structs on the real context): ev = every EV document of C06 (clock-relative dates x should-totals x <=2 (thorough 3) extreme/narrow/wide/open entries, optional second record), " +
+			"tagtab = one record with two entries whose summaries are every sequence of <=2 tags from a " + fmt.Sprint(len(c18TagMenu)) + "-tag menu (ASCII, wide, combining, astral names; plain, quoted, non-ASCII values), " +
+			"each x " + fmt.Sprint(len(c18BulkCmds)) + " commands x {--no-style, dark, light, basic}. A case = (document, command, configuration); all distinct.",
 		Assumptions: []string{
 			"own SGR stripper: ESC [ digits/semicolons m; any other ESC byte left after stripping is a violation",
 			"table rows are compared by number of characters (runes) after stripping, as the statement says 'visible characters'",
 			"the clock is fixed at 2022-06-15 12:00 (a date several documents use, so --now and today have open ranges to close)",
 		},
-		Units: func(fw.Tier) int { return len(c18Docs()) },
+		Units: func(t fw.Tier) int { return len(c18Docs()) + len(planSpans(c18BulkSizes(t), c18Chunk)) },
 		RunUnit: func(c *fw.Ctx, unit int) {
-			for _, cmd := range c18Commands {
-				c18Run(c, unit, cmd)
+			if unit < len(c18Docs()) {
+				for _, cmd := range c18Commands {
+					c18Run(c, unit, cmd)
+				}
+				return
+			}
+			sp := planSpans(c18BulkSizes(c.Tier), c18Chunk)[unit-len(c18Docs())]
+			for i := sp.lo; i < sp.hi && !c.Expired(); i++ {
+				c18Bulk(c, sp.fam, i)
 			}
 		},
 		Replay: func(c *fw.Ctx, raw json.RawMessage) {
 			var cs c18Case
 			if json.Unmarshal(raw, &cs) == nil {
-				c18Run(c, cs.Doc, cs.Cmd)
+				if cs.Fam != "" {
+					c18Bulk(c, indexOf(c18BulkNames, cs.Fam), cs.Doc)
+				} else {
+					c18Run(c, cs.Doc, cs.Cmd)
+				}
 			}
 		},
 	})
@@ -138,7 +157,7 @@ func c18Run(c *fw.Ctx, doc int, cmd []string) {
 	var plainCode int
 	havePlain := false
 	for _, cfg := range c18Configs {
-		cs := c18Case{doc, cmd, cfg.name}
+		cs := c18Case{Doc: doc, Cmd: cmd, Cfg: cfg.name}
 		c.Eval(1)
 		c.Nontrivial(fw.HashMix(fw.HashString(strings.Join(cmd, " ")+cfg.name), uint64(doc)))
 		args := append(append(append([]string{}, cmd...), cfg.flags...), path)
@@ -202,4 +221,137 @@ func c18Table(out string) string {
 		}
 	}
 	return ""
+}
+
+
+// ---- BULK: the same oracle on large enumerated document families, command structs run directly (clidrv.Exec)
+
+const c18Chunk = 1500
+
+var c18BulkNames = []string{"ev", "tagtab"}
+
+var c18TagMenu = []string{"#a", "#日本語", "#ünï=\"wert 1\"", "#x='q\"z'", "#a=1", "#𝒳", "#ＴＡＧ=値", "#long_tag-name=long-value_123", "#é́", "#b=\"\""}
+
+func c18TagSeqs() int { return 1 + len(c18TagMenu) + len(c18TagMenu)*len(c18TagMenu) }
+
+func c18TagSeq(k int) string {
+	n := len(c18TagMenu)
+	switch {
+	case k == 0:
+		return ""
+	case k <= n:
+		return " " + c18TagMenu[k-1]
+	}
+	k -= n + 1
+	return " " + c18TagMenu[k/n] + " text " + c18TagMenu[k%n]
+}
+
+func c18BulkSizes(t fw.Tier) []int {
+	return []int{c06EvCount(t), c18TagSeqs() * c18TagSeqs()}
+}
+
+func c18BulkDoc(t fw.Tier, fam, i int) string {
+	if fam == 0 {
+		return c06EvDoc(t, i)
+	}
+	n := c18TagSeqs()
+	return "2022-06-15\n    1h" + c18TagSeq(i/n) + "\n    8:00 - 9:30" + c18TagSeq(i%n) + "\n"
+}
+
+type c18BulkCmd struct {
+	name  string
+	table bool
+	mk    func(in cliutil.InputFilesArgs, noStyle bool) clidrv.Runner
+}
+
+var c18BulkCmds = func() []c18BulkCmd {
+	ns := func(b bool) cliutil.NoStyleArgs { return cliutil.NoStyleArgs{NoStyle: b} }
+	cmds := []c18BulkCmd{
+		{"print", false, func(in cliutil.InputFilesArgs, b bool) clidrv.Runner { return &cli.Print{NoStyleArgs: ns(b), InputFilesArgs: in} }},
+		{"print --with-totals", false, func(in cliutil.InputFilesArgs, b bool) clidrv.Runner {
+			return &cli.Print{WithTotals: true, NoStyleArgs: ns(b), InputFilesArgs: in}
+		}},
+		{"total --diff --now", false, func(in cliutil.InputFilesArgs, b bool) clidrv.Runner {
+			return &cli.Total{DiffArgs: cliutil.DiffArgs{Diff: true}, NowArgs: cliutil.NowArgs{Now: true}, NoStyleArgs: ns(b), InputFilesArgs: in}
+		}},
+		{"total --diff --decimal", false, func(in cliutil.InputFilesArgs, b bool) clidrv.Runner {
+			return &cli.Total{DiffArgs: cliutil.DiffArgs{Diff: true}, DecimalArgs: cliutil.DecimalArgs{Decimal: true}, NoStyleArgs: ns(b), InputFilesArgs: in}
+		}},
+		{"tags -v -c", true, func(in cliutil.InputFilesArgs, b bool) clidrv.Runner {
+			return &cli.Tags{Values: true, Count: true, NoStyleArgs: ns(b), InputFilesArgs: in}
+		}},
+		{"tags", true, func(in cliutil.InputFilesArgs, b bool) clidrv.Runner { return &cli.Tags{NoStyleArgs: ns(b), InputFilesArgs: in} }},
+		{"today --diff --now", true, func(in cliutil.InputFilesArgs, b bool) clidrv.Runner {
+			return &cli.Today{DiffArgs: cliutil.DiffArgs{Diff: true}, NowArgs: cliutil.NowArgs{Now: true}, NoStyleArgs: ns(b), InputFilesArgs: in}
+		}},
+		{"today --diff", true, func(in cliutil.InputFilesArgs, b bool) clidrv.Runner {
+			return &cli.Today{DiffArgs: cliutil.DiffArgs{Diff: true}, NoStyleArgs: ns(b), InputFilesArgs: in}
+		}},
+	}
+	for _, agg := range []string{"day", "week", "month", "quarter", "year"} {
+		agg := agg
+		cmds = append(cmds, c18BulkCmd{"report --aggregate " + agg + " --diff --chart", true, func(in cliutil.InputFilesArgs, b bool) clidrv.Runner {
+			return &cli.Report{AggregateBy: agg, Chart: true, DiffArgs: cliutil.DiffArgs{Diff: true}, NoStyleArgs: ns(b), InputFilesArgs: in}
+		}})
+	}
+	cmds = append(cmds, c18BulkCmd{"report --fill --decimal", true, func(in cliutil.InputFilesArgs, b bool) clidrv.Runner {
+		return &cli.Report{AggregateBy: "day", Fill: true, DecimalArgs: cliutil.DecimalArgs{Decimal: true}, NoStyleArgs: ns(b), InputFilesArgs: in}
+	}})
+	return cmds
+}()
+
+var c18BulkConfigs = []c18Config{
+	{name: "--no-style", plain: true},
+	{name: "default(dark)"},
+	{name: "colour_scheme=light", config: "colour_scheme = light\n"},
+	{name: "colour_scheme=basic", config: "colour_scheme = basic\n"},
+}
+
+func c18Bulk(c *fw.Ctx, fam, i int) {
+	text := c18BulkDoc(c.Tier, fam, i)
+	if r := sm.Parse(text); r.Verdict != sm.Valid {
+		c.Outcome("bulk-invalid-doc") // EV: two open ranges in one record
+		return
+	}
+	dir := fw.Scratch()
+	home := clidrv.Home("home")
+	path := clidrv.WriteFile(dir, "c18b.klg", text)
+	in := fileArgs(path)
+	for _, bc := range c18BulkCmds {
+		var plain string
+		var plainCode int
+		for k, cfg := range c18BulkConfigs {
+			cs := c18Case{Doc: i, Cmd: []string{bc.name}, Cfg: cfg.name, Fam: c18BulkNames[fam], Text: fw.Txt(text)}
+			c.Eval(1)
+			c.Nontrivial(fw.HashMix(fw.HashString(bc.name+cfg.name+c18BulkNames[fam]), uint64(i)))
+			r := clidrv.Exec(home, clidrv.Opts{Now: fixedNow, ConfigFile: cfg.config}, bc.mk(in, cfg.plain))
+			if r.Panicked {
+				c.Violation("panic:"+fw.PanicSite(r.Stack), cs, fmt.Sprintf("`klog %s` (%s) panicked: %v\n%s", bc.name, cfg.name, r.PanicVal, r.Stack))
+				return
+			}
+			out := r.Stdout + "\x00ERR\x00" + r.Err
+			if cfg.plain && strings.ContainsRune(out, 0x1b) {
+				c.Violation("escape-in-unstyled", cs, fmt.Sprintf("output with styling disabled (%s) contains an escape sequence:\n%q", cfg.name, out))
+				return
+			}
+			stripped := stripSGR(out)
+			if strings.ContainsRune(stripped, 0x1b) {
+				c.Violation("non-sgr-escape", cs, fmt.Sprintf("styled output contains an escape sequence that is not SGR:\n%q", out))
+				return
+			}
+			if k == 0 {
+				plain, plainCode = stripped, r.Code
+			} else if stripped != plain || r.Code != plainCode {
+				c.Violation("styling-changes-text", cs, fmt.Sprintf("`klog %s` with %s differs from the unstyled output beyond SGR sequences (exit %d vs %d).\nunstyled:\n%q\nstripped:\n%q", bc.name, cfg.name, r.Code, plainCode, plain, stripped))
+				return
+			}
+			if bc.table && r.Code == 0 {
+				if why := c18Table(stripSGR(r.Stdout)); why != "" {
+					c.Violation("table-width", cs, fmt.Sprintf("`klog %s` (%s): %s\n%s", bc.name, cfg.name, why, stripSGR(r.Stdout)))
+					return
+				}
+			}
+		}
+	}
+	c.Outcome("bulk-" + c18BulkNames[fam])
 }
